@@ -209,8 +209,9 @@ def rule_z4(chk: Check, ix: Index):
                 f"lines with the same text, or any token the extra test skips, then have no text when a syntax error is reported there, "
                 f"while file mode re-reads the file and has it")
     chk.count("Z4-line-source")
-    chk.require(len(fills) == 1, "Z4-line-source", "Tokenizer.peek:cache-fill", pk.where,
-                "the per-line cache must be filled (only) in string mode")
+    from .bufeval import arbitrate
+    arbitrate(chk, len(fills) == 1, "Z4-line-source", "Tokenizer.peek:cache-fill", pk.where,
+              "the per-line cache must be filled (only) in string mode", which="peek")
     # ... and before blank tokens are filtered out, so that the cache holds every line the file scan would find
     # (otherwise blank / comment-only lines inside an error span read '' from a string but their text from a file)
     loop = next((n for n in own_nodes(pk.node) if isinstance(n, ast.While)), None)
@@ -220,9 +221,9 @@ def rule_z4(chk: Check, ix: Index):
         idx_fill = next((i for i, s in enumerate(loop.body) if isinstance(s, ast.If) and "not self._path" in norm_stmt(s.test)), None)
         idx_filter = next((i for i, s in enumerate(loop.body) if isinstance(s, ast.If) and "self.is_blank(tok)" in norm_stmt(s.test)), None)
         order_ok = idx_fill is not None and (idx_filter is None or idx_fill < idx_filter)
-    chk.require(order_ok, "Z4-line-source", "Tokenizer.peek:cache-before-filter", pk.where,
+    arbitrate(chk, order_ok, "Z4-line-source", "Tokenizer.peek:cache-before-filter", pk.where,
                 "lines must be remembered before blank tokens (NL, COMMENT) are dropped: a blank or comment-only line inside an "
-                "error span is otherwise '' in string mode while file mode re-reads its real text")
+                "error span is otherwise '' in string mode while file mode re-reads its real text", which="peek")
     # both sources key lines by the same 1-based line number
     chk.count("Z4-line-source")
     scan = [n for n in own_nodes(f.node) if isinstance(n, ast.For)]
